@@ -638,9 +638,12 @@ def c18(ctx):
                 "verification methods (qualified / relative id, controller, material form), the five relationship "
                 "lists in document order and the context list in order of first use; (ops) every operation list of "
                 "length <= MaxOps with (time, number) in (0..2)^2 and canonical reference in {1, 2}, published "
-                "(sorted, de-duplicated) and unpublished (sorted); (meta) presence / value of every metadata item for "
+                "(sorted, de-duplicated) and unpublished (sorted); (opts) lists of <= 2 operations held in the published list, "
+                "the unpublished list or both (the same requests) x the four combinations of the two include options x "
+                "the DID transformer and the generic document transformer: each list is reported exactly when its own "
+                "option is set; (meta) presence / value of every metadata item for "
                 "all 1536 combinations of commitments, anchor origin form, flags, times, version, canonical / "
-                "equivalent id. TLC checks ExactlyOnce and SortedOps; the harness builds the ResolutionModel, calls "
+                "equivalent id. TLC checks ExactlyOnce, SortedOps and OptionsIndependent; the harness builds the ResolutionModel, calls "
                 "TransformDocument and compares the whole document / metadata; base58 / multibase conversions are "
                 "recomputed with the harness's own base58.")
     ctx.assumptions = ["the order among operations with equal (time, number) is not asserted; when two operations of one "
